@@ -78,6 +78,14 @@ FIXED = [
      "`def 0 { if (debug) { ` x 121 (also forever / switch) raised RecursionError; with the decompiler imported the limit was 10000 and the text compiled: the result depended on the history of the process (C11)"),
     ("C10", "fix: a jump or call to an undefined label was accepted in a macro that is never called",
      "`macro m() { a(); jump @nowhere; } def 0 { b(); }` compiled and produced output"),
+    ("C11", "fix: the decompiled text depended on the memory address of the flow graph",
+     "a while loop with four switches that each have a `break_loop` case (input d_many_breaks): label names `@switch0_15` / `@switch0_17` differed between runs with other graphs alive and between fresh interpreters (108 of 2648 histories)"),
+    ("C11", "fix: strings in the header of a switch over an operation and in menu2() cases were printed with a stale indentation",
+     "history [SsbScript decompile of X, ExplorerScript decompile of X] for X with `switch (ProcessSpecial('first line\\nsecond line', 1, 2))`: the header string was indented as the SsbScript decompiler had left it"),
+    ("C15", "fix: the 'return' added at the end of a routine was also written inside a message switch or with-block",
+     "`def 0 { a(); message_SwitchTalk ($K) { case 1: 'x' default: 'y' } }` (no terminator) through the compile and the decompile command came back as `message_SwitchTalk ($K) { .. return; } return;`, a ParseError (204 of 19.8k programs once the check compiled the round-trip text in every case, not only when CLI and API text differ)"),
+    ("C15", "fix: a call at the very end of a routine was followed by a jump to the called label",
+     "`def 0 { @L0; call @L0; }` came back as `@label_0; call @label_0; jump @label_0;` (7 programs)"),
     ("C02", "fix: dungeon mode values other than 0..3 were printed as the 'closed' constant",
      "`switch (dungeon_mode(D)) { case DMODE_OPEN: .. }` (or any constant / other number as case value or flag_SetDungeonMode value) decompiled to `case DMODE_CLOSE:` (476 of 55k inputs under seed rotation 2)"),
     ("C09", "fix: inserted break_loop/continue statements overwrote the source map entry of the op before them",
